@@ -163,6 +163,9 @@ def _execute(case, script, inputs, key_cols, expected, maybe, cols, bucket, emit
         name, code, vtl = eng.exc_info(r)
         if name in ("SemanticError", "VTLSyntaxError") or (vtl and str(code).startswith(("1-", "0-"))):
             emit({"v": "skip", "why": f"generator_rejected {name} {code}"})
+        elif vtl and maybe and case["fam"] == "dp":
+            # some datapoint's rule value is unspecified in the model (e.g. null / 0): a VTL run-time error is an admissible outcome
+            emit({"v": "inc", "why": "model unspecified for some datapoint and the engine raised a VTL run-time error"})
         else:
             emit({"v": "viol", "b": bucket, "mech": f"{case['fam']}/valid-statement-raises/{name}:{code}", "what": f"{script[:300]}: {name} {code}: {str(r)[:200]}", "case": case})
         return
